@@ -9,6 +9,7 @@ def run_check(tier, seed, replay=None):
         return replay_hex(c, "C01", replay)
     wd = workdir("c01")
     mc_scan(c, wd, tier)
+    mc_chunks(c, wd, tier)
     files = gen_files(wd, tier, seed)
     res = replay_files(wd, files, seed)
     account_files(c, res, "C01", "model files")
